@@ -148,13 +148,17 @@ INIT_K = "class K:\n    tag = 0\nK.__module__ = 'vlib.hintenv'\n"
 DEFINE_WF = ("#WF-DEF\n"
              "def _wf(a: 'vlib.hintenv.W'):\n    return None\n_wf = _bt(_wf)\n"
              "def _wf2(a: \"list['vlib.hintenv.W']\"):\n    return None\n_wf2 = _bt(_wf2)\n"
-             "def _wf3(a) -> \"Optional['vlib.hintenv.W']\":\n    return a\n_wf3 = _bt(_wf3)\n")
+             "def _wf3(a) -> \"Optional['vlib.hintenv.W']\":\n    return a\n_wf3 = _bt(_wf3)\n"
+             "def _wf4(a: \"type['vlib.hintenv.W']\"):\n    return None\n_wf4 = _bt(_wf4)\n"
+             "def _wf5(a: \"dict[str, type['vlib.hintenv.W']]\"):\n    return None\n_wf5 = _bt(_wf5)\n")
 DEFINE_W = "#W-DEF\n@_bt\nclass W:\n    tag = {n}\n    def m(self, a: int) -> 'W':\n        return self\n"
 HOTRELOAD_QUERIES = ['_ans(lambda: _wf(W()))', '_ans(lambda: _wf(1))', '_ans(lambda: _wf2([W()]))', '_ans(lambda: _wf2([1]))',
                      '_ans(lambda: _wf3(W()) is not None)', '_ans(lambda: _wf3(None) is None)', '_ans(lambda: _wf3("x") is None)',
                      '_ans(lambda: W().m(1) is not None)',
                      "call(lambda: \"W\", lambda: W(), 'CONF0')", "ib(lambda: W(), lambda: W, 'CONF0')",
-                     "ib(lambda: [W()], lambda: list[W], 'CONF0')", '_ans(lambda: W().m("s") is None)']
+                     "ib(lambda: [W()], lambda: list[W], 'CONF0')", '_ans(lambda: W().m("s") is None)',
+                     '_ans(lambda: _wf4(W))', '_ans(lambda: _wf4(int))', '_ans(lambda: _wf5({"k": W}))',
+                     '_ans(lambda: _wf4(type("Sub", (W,), {})))']
 
 
 FAMILIES = {
@@ -430,7 +434,8 @@ def main():
         # a decorated class hot-reloaded five times under long-lived callables naming it
         [('ns', DEFINE_WF)] + [st for g in range(1, 6) for st in (
             ('ns', DEFINE_W.format(n=g)), ('query', '_ans(lambda: _wf(W()))'), ('query', '_ans(lambda: _wf2([W()]))'),
-            ('query', '_ans(lambda: _wf3(W()) is not None)'), ('query', '_ans(lambda: W().m(1) is not None)'))],
+            ('query', '_ans(lambda: _wf3(W()) is not None)'), ('query', '_ans(lambda: W().m(1) is not None)'),
+            ('query', '_ans(lambda: _wf4(W))'), ('query', '_ans(lambda: _wf5({"k": W}))'))],
         # same-named, differently meant hints wrapped one after the other
         [('query', "sub(lambda: int, lambda: TypeVar('T', bound=int))"), ('query', "sub(lambda: int, lambda: TypeVar('T', bound=str))"),
          ('query', "sub(lambda: str, lambda: NewType('N', str))"), ('query', "sub(lambda: NewType('N', int), lambda: str)"),
@@ -496,9 +501,9 @@ def main():
             W.sample(dict(history=[short(s, 80) for k, s in steps][:8], answers=answers[:4]))
 
     W.need('histories', 40)
-    W.need('queries', 500)
+    W.need('queries', 300)
     W.need('reference_forks', 50)
-    W.need('answers.value', 200)
+    W.need('answers.value', 120)
     W.need('answers.raise', 40)
     W.finish()
 
